@@ -306,6 +306,19 @@ impl Session {
         }
     }
 
+    /// Whether [`Self::prepare_buffer`] can assemble an uplink from `data`: FPort 0 carries the queued
+    /// MAC commands and no application data, and MHDR, FHDR (with the MAC commands piggybacked on any
+    /// other port), FPort, payload and MIC together must fit the 255 bytes of a LoRa packet.
+    pub(crate) fn can_send(&self, data: &SendData<'_>) -> bool {
+        const MAX_PHY_PAYLOAD: usize = 255;
+        // MHDR (1) + DevAddr (4) + FCtrl (1) + FCnt (2) + FPort (1) + MIC (4)
+        const OVERHEAD: usize = 13;
+        if data.fport == 0 && !data.data.is_empty() {
+            return false;
+        }
+        OVERHEAD + self.uplink.mac_commands().len() + data.data.len() <= MAX_PHY_PAYLOAD
+    }
+
     pub(crate) fn prepare_buffer<const N: usize>(
         &mut self,
         data: &SendData<'_>,
